@@ -134,8 +134,11 @@ def case_explicit(ctx, p):
                 pe = [(x, x, pe[2]), (x, 2 * x % 1, pe[2]), (pe[0], pe[1], x), (x, pe[1], pe[2])][int(rng.integers(4))]
         else:
             pe = [Fraction(int(rng.integers(300, 9700)), 10000) for _ in range(3)]
+        if rng.random() < 0.12:
+            # an atom on a lattice point, written with whole numbers (origin or a lattice-shifted origin)
+            pe = [Fraction(int(v)) for v in rng.integers(-2, 3, 3)]
         pos = [float(f) for f in pe]
-        multi = sx.orbit_size(list(pe), ops)
+        multi = sx.orbit_size([f % 1 for f in pe], ops)
         if p["kind"] == "Uiso":
             adp_type, adp = "Uiso", float(rng.uniform(0.005, 0.08))
         elif p["kind"] == "Uani":
